@@ -3,10 +3,11 @@
 # the seeded change /verif/seeded/<seed-id>/patch.diff applied; expect exit 1 + a VIOLATION line.
 # (The brief's canonical procedure -- git -C /repo apply ...; run; git -C /repo checkout -- . -- gives the
 #  same result; a scratch copy is used so that checks running concurrently against /repo are not disturbed.)
-id=$1; shift
+full=$1; shift
+id=${full%%__*}
 props="$@"
 [ -n "$props" ] || props=$(/venv/bin/python -c "import json;print(json.load(open('/verif/seeded/$id/meta.json'))['property'])")
-d=/dev/shm/seedrun_$id
+d=/dev/shm/seedrun_$full
 rm -rf $d; mkdir -p $d
 git -C /repo archive HEAD | tar -x -C $d
 ( cd $d && patch -s -p1 < /verif/seeded/$id/patch.diff ) || { echo "$id: patch failed"; rm -rf $d; exit 2; }
